@@ -420,6 +420,55 @@ if n > 3 {
 fmt.Print("mid ")
 done#:
 fmt.Println("n", n)`},
+	{ID: "labels-stacked", Holes: []string{"int"}, Body: `n := 0
+first#:
+second#:
+	for n < 6 {
+		n++
+		if n == @1 {
+			break second#
+		}
+		if n%2 == 0 {
+			continue second#
+		}
+		fmt.Print(n, " ")
+	}
+if n < 3 {
+	n += 10
+	goto first#
+}
+fmt.Println("n", n)`},
+	{ID: "labels-on-switch-select-block", Holes: []string{"int"}, Body: `n := @1
+sw#:
+	switch {
+	case n > 2:
+		if n > 4 {
+			fmt.Print("big ")
+			break sw#
+		}
+		fmt.Print("mid ")
+	default:
+		fmt.Print("small ")
+	}
+ch := make(chan int, 1)
+ch <- n
+sel#:
+	select {
+	case v := <-ch:
+		if v%2 == 0 {
+			break sel#
+		}
+		fmt.Print("odd ")
+	}
+	if n < 0 {
+		goto blk#
+	}
+	n++
+blk#:
+	{
+		fmt.Print("block ")
+	}
+fmt.Println(n)`},
 	{ID: "closure-loopvar", Holes: []string{"int"}, Body: `var fs []func() int
 for n := 0; n < 3; n++ {
 	fs = append(fs, func() int { n += @b1; return n })
